@@ -281,6 +281,72 @@ def check_reentrancy(chk):
     reent.threaded(chk, 'reentrancy', cases, seconds=2.0 if chk.tier == 'thorough' else 0.6)
 
 
+def whole_packets(chk):
+    """The packets that carry the position codecs, whole: a multi block change with any number of records - among them the
+    smallest ones (air at the low corner of a section: one byte from protocol 741 on) - and a block change, written by the real
+    classes, framed, and read back through the real play reactor's read_packet; the chunk position and every record come back."""
+    import proto
+    from minecraft.networking.connection import ConnectionContext, PlayingReactor
+    from minecraft.networking.packets import PacketBuffer
+    from minecraft.networking.packets.clientbound.play import MultiBlockChangePacket as M, BlockChangePacket as B
+    from minecraft.networking.types import Position
+    import types, sim
+    from minecraft.networking import connection as C
+    sim.patch_select(C)                  # (a stream is readable when it has data; left installed - every later use goes through the simulation too)
+    rng = chk.rng
+    lay = dict(zip(chk.tables['known_protocols'], chk.tables['layout']))
+    for pv in (47, 340, 404, 477, 578, 736, 740, 741, 751, 754, 757):
+        if lay.get(pv) not in ('yz', 'zy'):
+            continue
+        ctx = ConnectionContext(protocol_version=pv)
+        conn = types.SimpleNamespace(context=ctx, options=types.SimpleNamespace(compression_enabled=False, compression_threshold=-1))
+        reactor = PlayingReactor(conn)
+        for n, kind in ((0, 'none'), (1, 'smallest'), (3, 'smallest'), (17, 'smallest'), (200, 'smallest'), (5, 'mixed'), (64, 'mixed'), (300, 'largest')):
+            recs = []
+            for i in range(n):
+                if kind == 'smallest':
+                    recs.append((0, 0, i % 8, 0))
+                elif kind == 'largest':
+                    recs.append((15, 15 if pv >= 741 else 255, 15, 2 ** 13 - 1))
+                else:
+                    recs.append((rng.randrange(16), rng.randrange(16), rng.randrange(16), rng.choice([0, 0, 1, 127, 128, 9000])))
+            pkt = M(context=ctx)
+            if pv >= 741:
+                pkt.chunk_section_pos = M.ChunkSectionPos(rng.randrange(-2 ** 21, 2 ** 21), rng.randrange(-2 ** 19, 2 ** 19), rng.randrange(-2 ** 21, 2 ** 21))
+                pkt.invert_trust_edges = bool(n % 2)
+            else:
+                pkt.chunk_x, pkt.chunk_z = rng.randrange(-2 ** 20, 2 ** 20), rng.randrange(-2 ** 20, 2 ** 20)
+            pkt.records = [M.Record(x=x, y=y, z=z, block_state_id=b) for x, y, z, b in recs]
+            chk.count('whole-packets', [pv, n, kind, recs[:4]], True)
+            try:
+                buf = PacketBuffer()
+                pkt.write(buf)
+                back = reactor.read_packet(sim.SegStream([buf.get_writable()]), timeout=0)
+                got = [(r.x, r.y, r.z, r.block_state_id) for r in back.records]
+                where = tuple(back.chunk_section_pos) if pv >= 741 else (back.chunk_x, back.chunk_z)
+                want_where = tuple(pkt.chunk_section_pos) if pv >= 741 else (pkt.chunk_x, pkt.chunk_z)
+                what = None if (got == recs and where == want_where and type(back) is M) else 'read back as %s at %s (%d records)' % (type(back).__name__, where, len(got))
+            except Exception as e:
+                what = 'raised %s: %s' % (exn_name(e), str(e)[:80])
+            if what:
+                chk.violation('whole-packets', 'whole:%d:%d:%s' % (pv, n, kind), {'case': {'proto': pv, 'records': n, 'kind': kind, 'first': recs[:4]}, 'observed': what},
+                              'multi block change at protocol %d with %d records (%s): %s' % (pv, n, kind, what))
+        xyz = (rng.randrange(-2 ** 25, 2 ** 25), rng.randrange(-2 ** 11, 2 ** 11), rng.randrange(-2 ** 25, 2 ** 25))
+        pkt = B(context=ctx)
+        pkt.location, pkt.block_state_id = Position(*xyz), 4097
+        buf = PacketBuffer()
+        pkt.write(buf)
+        chk.count('whole-packets', [pv, 'block-change', list(xyz)], True)
+        try:
+            back = reactor.read_packet(sim.SegStream([buf.get_writable()]), timeout=0)
+            ok = tuple(back.location) == xyz and back.block_state_id == 4097
+            what = None if ok else 'read back as %r' % (tuple(back.location),)
+        except Exception as e:
+            what = 'raised %s' % exn_name(e)
+        if what:
+            chk.violation('whole-packets', 'whole:%d:block-change' % pv, {'case': {'proto': pv, 'xyz': list(xyz)}, 'observed': what}, 'block change at protocol %d, position %r: %s' % (pv, xyz, what))
+
+
 def connection_positions(chk):
     """Through the Connection: one packet object carrying a block position is written on connections of versions either side
     of the switch-over (and once built with another version's context); the word on the wire is packed for the version of the
@@ -355,6 +421,7 @@ def run(chk):
     check_csp_records(chk)
     check_reentrancy(chk)
     connection_positions(chk)
+    whole_packets(chk)
     chk.assumptions += ['struct.pack(">Q") / UnsignedLong, VarInt/VarLong (C03) carry the packed word', 'layout per version is observed by probing three triples that distinguish the layouts']
 
 
